@@ -82,7 +82,7 @@ def handle_stun_table(prog, chk, rule="handle_stun-table"):
     remote = ("field", ("variant", ("field", self_, "remote_credentials"), "Some"), "0")
     validate = ("call", r"Message::<'a>::validate_integrity$", [msg, remote])
     vpeer = ("call", r"StunAgent::validated_peer$", [self_, frm])
-    insert = ("call", r"HashMap::<.*>::insert$", [("field", self_, "outstanding_requests"), tid, taken])
+    insert = ("call", r"(Hash|BTree)Map::<.*>::insert$", [("field", self_, "outstanding_requests"), tid, taken])
 
     def ret(variant, payload):
         return ("set", 0, ("agg", r"HandleStunReply::%s$" % variant, payload))
@@ -145,7 +145,7 @@ def taken_state_untouched(prog, chk, rule="taken-state-unmodified"):
                 bad.append("&mut borrow at " + short_span(u.node.get("span")))
             elif u.kind == "call_arg":
                 name = og.callee_name(u.node)
-                if not re.search(r"HashMap::<.*>::insert$", name) and not name.startswith(("core::fmt", "tracing")):
+                if not re.search(r"(Hash|BTree)Map::<.*>::insert$", name) and not name.startswith(("core::fmt", "tracing")):
                     bad.append("passed to %s" % name)
     chk.ob(rule, "handle_stun: taken StunRequestState only read (request_had_credentials) or moved into insert",
            not bad, b.loc(), detail="; ".join(bad))
@@ -154,7 +154,7 @@ def taken_state_untouched(prog, chk, rule="taken-state-unmodified"):
 def take_outstanding_table(prog, chk, rule="take_outstanding-table"):
     b = prog.bodies[AGENT + "::take_outstanding_request"]
     self_, tid = ("param", "self"), ("param", "transaction_id")
-    remove = ("call", r"HashMap::<.*>::remove::<.*>$", [("field", self_, "outstanding_requests"), tid])
+    remove = ("call", r"(Hash|BTree)Map::<.*>::remove::<.*>$", [("field", self_, "outstanding_requests"), tid])
 
     def oracle_of(val):
         def oracle(o, t, body):
@@ -221,7 +221,7 @@ def send_table(prog, chk, rule="send-table"):
     poll = ("call", r"StunRequestState::poll$", [new, now])
     transmit = ("field", ("variant", poll, "SendData"), "0")
     owned = ("call", r"Transmit::<'a>::into_owned$", [transmit])
-    insert = ("call", r"HashMap::<.*>::insert$", [("field", self_, "outstanding_requests"), tid, new])
+    insert = ("call", r"(Hash|BTree)Map::<.*>::insert$", [("field", self_, "outstanding_requests"), tid, new])
     build = ("call", r"MessageBuilder::<'a>::build$", [msg])
     sd = ("call", r"StunAgent::send_data$", [self_, ("call", r"Vec<u8> as std::ops::Deref>::deref$", [build]), to])
     owned2 = ("call", r"Transmit::<'a>::into_owned$", [sd])
@@ -231,7 +231,7 @@ def send_table(prog, chk, rule="send-table"):
             s = strip(o)
             if pm(s, ("call", r"MessageBuilder::<'a>::has_class$", [msg, ("agg", r"MessageClass::Request$", [])]), b):
                 return val["Q"]
-            if pm(s, ("call", r"HashMap::<.*>::contains_key::<.*>$", [("field", self_, "outstanding_requests"), tid]), b):
+            if pm(s, ("call", r"(Hash|BTree)Map::<.*>::contains_key::<.*>$", [("field", self_, "outstanding_requests"), tid]), b):
                 return val["K"]
             if s.k == "discr" and pm(s.a[0], poll, b):
                 return val["P"]
@@ -408,9 +408,9 @@ def agent_poll_table(prog, chk, rule="agent-poll-table"):
                     return val["P"]
                 if x.k == "call" and re.search(r"Iterator>::next$", x.a[0]):
                     return val["N"]
-                if x.k == "call" and re.search(r"HashMap::<.*>::remove::<.*>$", x.a[0]):
+                if x.k == "call" and re.search(r"(Hash|BTree)Map::<.*>::remove::<.*>$", x.a[0]):
                     return val.get("RM", 1)
-                if x.k == "call" and re.search(r"HashMap::<.*>::get_mut::<.*>$", x.a[0]):
+                if x.k == "call" and re.search(r"(Hash|BTree)Map::<.*>::get_mut::<.*>$", x.a[0]):
                     return val.get("G", 1)
             if s.k == "call" and re.search(r"Instant as std::cmp::PartialOrd>::(lt|gt|le|ge)$", s.a[0]):
                 cmps.append(s)
@@ -462,26 +462,13 @@ def agent_poll_table(prog, chk, rule="agent-poll-table"):
             ok = (not removes and any(ev_match(e, ("set", 0, ("agg", r"StunAgentPollRet::SendData$", [owned])), b) for e in evs)
                   and evs[-1] == ("return",))
             chk.ob(rule, inst, ok, b.loc(), detail=show(evs), how="Transmit of the request returned through into_owned only; no map event")
-        elif P == 0:  # WaitUntil: no removal, loop continues; payload may only update the running minimum
-            ok = not removes and evs[-1][0] == "loop"
-            sets = [e for e in evs if e[0] == "set"]
-            w_payload = ("field", ("variant", poll_call, "WaitUntil"), "0")
-            ok = ok and all(pm(e[2], w_payload, b) for e in sets) and (bool(sets) == bool(L) or not sets)
-            # direction of the selection: the update happens iff payload < current (or current > payload)
-            dir_ok = bool(cmps)
-            for c in cmps:
-                op = re.search(r"::(lt|gt|le|ge)$", c.a[0]).group(1)
-                a0, a1 = strip(c.a[2][0]), strip(c.a[2][1])
-                small, big = (a0, a1) if op in ("lt", "le") else (a1, a0)
-                if not (pm(small, w_payload, b) and big.k == "multi" and all(e[1] == big.a[0] for e in sets)):
-                    dir_ok = False
-            chk.ob(rule, inst, ok and dir_ok, b.loc(), detail=show(evs) + " ; comparisons: %r" % (cmps[:2],),
-                   how="no map event; running minimum := this wake-up exactly when it is earlier than the current one")
+        elif P == 0:
+            continue  # WaitUntil rows: handled by _wait_rows below (needs both states of the running minimum)
         else:  # Cancelled / TimedOut: must lead to remove(that request's id) and the matching reply
             want = "TransactionCancelled" if P == 1 else "TransactionTimedOut"
             full = _follow_break(prog, b, rw, oracle_of, call_event, track, head, {"N": 1, "P": P, "L": L}, loop, env0)
             evs2 = events_only(full) if full is not None else ()
-            rem = [e for e in evs2 if e[0] == "call" and re.search(r"HashMap::<.*>::remove::<.*>$", e[1])]
+            rem = [e for e in evs2 if e[0] == "call" and re.search(r"(Hash|BTree)Map::<.*>::remove::<.*>$", e[1])]
             rets = [e for e in evs2 if e[0] == "set" and e[1] == 0]
             ok = (len(rem) == 1 and len(rets) == 1 and pm(rets[-1][2], ("agg", r"StunAgentPollRet::%s$" % want, [("any",)]), b))
             if ok:
@@ -490,8 +477,98 @@ def agent_poll_table(prog, chk, rule="agent-poll-table"):
                 ok = _same_request_id(rid, req_of_poll, evs2) and _same_request_id(pid, req_of_poll, evs2)
             chk.ob(rule, inst, ok, b.loc(), detail=show(evs2)[:900],
                    how="exactly one remove(id of the polled request) then %s(that id)" % want)
+    _wait_rows(prog, chk, rule, b, rw, oracle_of, call_event, track, head, env0, cmps, poll_call)
     chk.floor(rule + "-rows", len(results), 8)
     return b, head, loop
+
+
+def _wait_rows(prog, chk, rule, b, rw, oracle_of, call_event, track, head, env0, cmps, poll_call):
+    """A per-request WaitUntil(w) changes nothing in the map, continues the loop, and updates the running
+    minimum m exactly when m is still empty or w is earlier than m (ties free)."""
+    w_payload = ("field", ("variant", poll_call, "WaitUntil"), "0")
+    init = dict(env0)
+    # which tracked local is the running minimum: the one assigned from the WaitUntil payload
+    cand = set()
+    probes = {}
+    for L in (0, 1):
+        for st in ("init", "some"):
+            probes[(L, st)] = None
+    # discover m with a first pass in the initial environment
+    for L in (0, 1):
+        w = Walker(prog, b, oracle_of({"N": 1, "P": 0, "L": L}), call_event, track_locals=track, rewrite=rw)
+        w.cut.add(head)
+        try:
+            beh = w._walk(head, env0)
+        except Unrecognised as e:
+            chk.fail(rule, "body|WaitUntil|unrecognised-guard", short_span(b.term(e.bb)["span"]), str(e)[:400])
+            return
+        for e in beh:
+            if e[0] == "set" and mentions(e[2], lambda x: x.k == "variant" and x.a[1] == "WaitUntil"):
+                cand.add(e[1])
+    if not chk.ob(rule, "body|WaitUntil|one running-minimum variable", len(cand) == 1, b.loc(), detail="candidates %r" % sorted(cand)):
+        return
+    m = next(iter(cand))
+    is_opt = b.local_ty(m)["s"].startswith("std::option::Option<")
+    states = {}
+    if is_opt:
+        states["empty"] = O("agg", "std::option::Option::None", ())
+        states["holding"] = O("agg", "std::option::Option::Some", (O("unknown", "carried"),))
+        i0 = strip(init.get(m, O("unknown", "no-init")))
+        chk.ob(rule, "body|WaitUntil|running minimum starts empty (None)", i0.k == "agg" and str(i0.a[0]).endswith("Option::None"),
+               b.loc(), detail="initial value %r" % (i0,))
+    else:
+        states["holding"] = init.get(m, O("unknown", "no-init"))
+    cur_plain = lambda o: strip(o).k == "multi" and strip(o).a[0] == m
+    cur_opt = lambda o: (strip(o).k == "field" and strip(o).a[1] == "0" and strip(strip(o).a[0]).k == "variant"
+                         and strip(strip(strip(o).a[0]).a[0]).k == "multi" and strip(strip(strip(o).a[0]).a[0]).a[0] == m)
+    is_cur = cur_opt if is_opt else cur_plain
+    for st, v in states.items():
+        for L in (0, 1):
+            env = dict(init)
+            env[m] = v
+            del cmps[:]
+            w = Walker(prog, b, oracle_of({"N": 1, "P": 0, "L": L}), call_event, track_locals=track, rewrite=rw)
+            w.cut.add(head)
+            try:
+                beh = w._walk(head, tuple(sorted(env.items())))
+            except Unrecognised as e:
+                chk.fail(rule, "body|WaitUntil|%s|unrecognised-guard" % st, short_span(b.term(e.bb)["span"]), str(e)[:400])
+                continue
+            evs = events_only(beh)
+            removes = [e for e in evs if e[0] == "call" and re.search(r"::(remove|insert)", e[1])]
+            sets = [e for e in evs if e[0] == "set"]
+            ok = not removes and evs and evs[-1][0] == "loop" and all(e[1] == m for e in sets)
+            want_val = ("agg", r"Option::Some$", [w_payload]) if is_opt else w_payload
+            ok = ok and all(pm(e[2], want_val, b) for e in sets)
+            mine = list(cmps)
+            if st == "empty":
+                ok = ok and len(sets) == 1
+                why = "empty minimum takes the wake-up"
+            else:
+                if len(mine) != 1:
+                    ok = False
+                    why = "expected exactly one comparison between the wake-up and the running minimum, saw %d" % len(mine)
+                else:
+                    c = mine[0]
+                    op = re.search(r"::(lt|gt|le|ge)$", c.a[0]).group(1)
+                    a0, a1 = c.a[2][0], c.a[2][1]
+                    if pm(a0, w_payload, b) and is_cur(a1):
+                        w_first = True
+                    elif pm(a1, w_payload, b) and is_cur(a0):
+                        w_first = False
+                    else:
+                        w_first = None
+                    if w_first is None:
+                        ok = False
+                        why = "comparison operands are not (wake-up, running minimum): %r" % (c,)
+                    else:
+                        # truth of "w earlier than (or equal to) m" under answer L
+                        w_smaller = (op in ("lt", "le")) == w_first
+                        earlier = bool(L) if w_smaller else (not L)
+                        ok = ok and (len(sets) == 1) == earlier
+                        why = "%s(%s) answered %d => wake-up %s; update %s" % (
+                            op, "w,m" if w_first else "m,w", L, "earlier" if earlier else "not earlier", "done" if sets else "skipped")
+            chk.ob(rule, "body|WaitUntil|%s|cmp=%d" % (st, L), ok, b.loc(), detail=why + " ; " + show(evs)[:500], how=why)
 
 
 def _same_request_id(o, req, evs):
@@ -529,47 +606,50 @@ def _follow_break(prog, b, rw, oracle_of, call_event, track, head, val, loop, en
 
 
 def agent_poll_wait(prog, chk, rule="agent-poll-wait"):
-    """C06(d): when at least one request answered WaitUntil, the agent's WaitUntil payload derives
-    from per-request WaitUntil payloads only (never from the initial cap)."""
+    """C06(d): the agent's WaitUntil payload is the running minimum of the per-request WaitUntil payloads; a
+    finite initial cap that survives when every wake-up lies beyond it is a violation."""
     b, ups = agent_poll_body(prog)
     rw = (lambda o: resolve_upvars(o, ups)) if ups else (lambda o: o)
     og = Origins(prog, b)
-    # the local returned in WaitUntil
     rets = []
     for bi, si, s in b.iter_stmts():
         if s["k"] == "assign" and not s["pl"]["p"] and s["pl"]["l"] == 0 and s["rv"]["k"] == "aggregate" \
-                and s["rv"].get("vname") == "WaitUntil":
+                and s["rv"].get("vname") == "WaitUntil" and s["rv"]["adt"].endswith("StunAgentPollRet"):
             rets.append((bi, s))
-    if not chk.ob(rule, "one WaitUntil return site in StunAgent::poll", len(rets) == 1, b.loc(), detail="%d sites" % len(rets)):
+    if not chk.ob(rule, "StunAgent::poll has a WaitUntil return site", len(rets) >= 1, b.loc()):
         return
-    op = rets[0][1]["rv"]["ops"][0]
-    o = strip(rw(og.operand(op)))
-    if o.k != "multi":
-        chk.ob(rule, "WaitUntil payload is the running minimum variable", False, short_span(rets[0][1]["span"]), detail=repr(o))
-        return
-    l = o.a[0]
-    defs = b.defs().get(l, [])
-    init = []
-    upd = []
-    for d in defs:
-        val = strip(rw(og.rvalue(d[3]["rv"]))) if d[0] == "stmt" else O("call", og.callee_name(d[3]), d[1], ())
-        if any(x.k == "variant" and x.a[1] == "WaitUntil" for x in val.walk()):
-            upd.append((d, val))
-        else:
-            init.append((d, val))
-    chk.ob(rule, "running minimum is updated from per-request WaitUntil payloads", len(upd) >= 1, b.loc(),
-           detail="updates: %r" % [v for _, v in upd])
-    # the initial value must not survive once a request answered WaitUntil: either it is a sentinel that
-    # compares greater than every Instant (None / explicit flag), or the first WaitUntil overwrites it
-    # unconditionally.  A finite cap `now + d` survives whenever every wake-up is later than the cap.
-    for d, val in init:
-        finite_cap = any(x.k == "call" and re.search(r"Instant as std::ops::Add", x.a[0]) for x in val.walk()) or \
-            any(x.k == "param" for x in val.walk())
-        where = short_span(d[3]["span"])
-        chk.ob(rule, "StunAgent::poll|WaitUntil-initialised-to-finite-cap", not finite_cap, where,
-               detail="the returned wake-up starts as %r and is only lowered by `<`: when every outstanding request's "
-                      "wake-up lies beyond the cap, poll answers the cap (which moves with `now`) instead of the earliest wake-up" % (val,),
-               how="initial value %r" % (val,))
+    for bi, s in rets:
+        o = strip(rw(og.operand(s["rv"]["ops"][0])))
+        where = short_span(s["span"])
+        m = None
+        shape = None
+        if o.k == "multi":
+            m, shape = o.a[0], "plain"
+        elif o.k == "call" and re.search(r"Option::<std::time::Instant>::unwrap_or(_else)?(::<.*>)?$", o.a[0]) and strip(o.a[2][0]).k == "multi":
+            m, shape = strip(o.a[2][0]).a[0], "option"
+        elif o.k == "field" and strip(o.a[0]).k == "variant" and strip(strip(o.a[0]).a[0]).k == "multi":
+            m, shape = strip(strip(o.a[0]).a[0]).a[0], "option"
+        if not chk.ob(rule, "StunAgent::poll|WaitUntil payload is the running minimum", m is not None, where,
+                      detail="payload origin %r is not the running-minimum variable (or its unwrap_or)" % (o,)):
+            continue
+        defs = b.defs().get(m, [])
+        upd, init = [], []
+        for d in defs:
+            val = strip(rw(og.rvalue(d[3]["rv"]))) if d[0] == "stmt" else O("call", og.callee_name(d[3]), d[1], ())
+            (upd if any(x.k == "variant" and x.a[1] == "WaitUntil" for x in val.walk()) else init).append((d, val))
+        chk.ob(rule, "StunAgent::poll|running minimum updated from per-request WaitUntil payloads", len(upd) >= 1, where,
+               detail="updates %r" % [v for _, v in upd])
+        for d, val in init:
+            if shape == "option":
+                ok = val.k == "agg" and str(val.a[0]).endswith("Option::None")
+                chk.ob(rule, "StunAgent::poll|running minimum starts as None", ok, short_span(d[3]["span"]), detail="initial value %r" % (val,))
+            else:
+                finite_cap = any(x.k == "call" and re.search(r"Instant as std::ops::Add", x.a[0]) for x in val.walk()) or \
+                    any(x.k == "param" for x in val.walk())
+                chk.ob(rule, "StunAgent::poll|WaitUntil-initialised-to-finite-cap", not finite_cap, short_span(d[3]["span"]),
+                       detail="the returned wake-up starts as %r and is only lowered by `<`: when every outstanding request's "
+                              "wake-up lies beyond the cap, poll answers the cap (which moves with `now`) instead of the earliest "
+                              "wake-up" % (val,), how="initial value %r" % (val,))
 
 
 # --------------------------------------------------------------------------------------------
